@@ -27,9 +27,9 @@ PROPS: dict[str, dict] = {
     "C01": _p("static analysis: sibling agreement of the three depth walkers (signature start+1*k), doc/table agreement, operator table at the threshold site, grammar-vocabulary check of node-kind literals",
               "Rules N1-N7 over 3 walkers, 3 construct tables, 3 threshold sites, the Python child traversal, the sibling early-exit guards and every node-kind literal of the nesting package." + _COMMON, "DESIGN.md 4 C01"),
     "C02": _p("static analysis: path dominance of the allow-list test over violation construction (CFG + helper implication summaries), admission-predicate rule, handler discipline, exemption reachability in the call graph",
-              "Rules M1-M4, M6-M12 over the three language branches of the magic-number rule (allow-list dominance, admission, handlers, exemption reachability, traversal completeness, radix literals, config memoisation, ancestor-walk completeness, sibling UPPER_CASE predicates, twin bounds tests)." + _COMMON, "DESIGN.md 4 C02"),
+              "Rules M1-M4, M6-M13 (M13: no character-set strip of literal text) over the three language branches of the magic-number rule (allow-list dominance, admission, handlers, exemption reachability, traversal completeness, radix literals, config memoisation, ancestor-walk completeness, sibling UPPER_CASE predicates, twin bounds tests)." + _COMMON, "DESIGN.md 4 C02"),
     "C03": _p("static analysis: writer/reader template agreement, same-list rule, SQL text rules, hash-input rule",
-              "Narrow claim: rules D1-D7 decide the message codec, list identity, the duplicate/ordering SQL, the hash input/normaliser order, the window arithmetic, the overlap predicates and the sync/async method finders; soundness/completeness of duplicate detection itself is not decided." + _COMMON, "DESIGN.md 4 C03"),
+              "Narrow claim: rules D1-D8 (D8: the skipped multi-line import closes on `)` anywhere in the line) decide the message codec, list identity, the duplicate/ordering SQL, the hash input/normaliser order, the window arithmetic, the overlap predicates and the sync/async method finders; soundness/completeness of duplicate detection itself is not decided." + _COMMON, "DESIGN.md 4 C03"),
     "C04": _p("static analysis: call-graph reachability of the ignore gate per rule and language branch, site-level gate-flow (path-sensitive value flow of constructed Violations through gate idioms), marker/regex sibling matrices, line-model def-use, scope coverage on CFG paths",
               "Rules I1(T1,T2), I2-I10 (I9 DRY filter order, I10 separator-stripped patterns) over 20 rule classes, 49 violation construction sites, 5 marker recognisers, 6 directive regexes and every line-list lookup." + _COMMON, "DESIGN.md 4 C04"),
     "C05": _p("static analysis: key provenance (documented section names vs metadata keys read), enabled-gate dominance with helper implication summaries, option wiring doc->from_dict->field->read, exception-path analysis to exit 2, CLI override level coverage, carrier/normalisation rules, threshold operator table",
@@ -47,21 +47,21 @@ PROPS: dict[str, dict] = {
     "C11": _p("static analysis: ValueError-escape rule over resolved callees with enumerated safe idioms, SyntaxError handler rule, frozen swallow table, unbounded-recursion walker detection, read-handler rule, regex-AST ambiguity analysis, mypy Optional diagnostics",
               "Rules E1-E12 over every function reachable from a rule (~900), the 67 regular expressions of src (E5: ambiguity degree from the regex AST), mypy's None/Optional diagnostics (E8), the SQL insert sites of the two stores (E9) and the magic-number message builders (E10)." + _COMMON, "DESIGN.md 4 C11"),
     "C12": _p("static analysis: dimension (unit) analysis of line/column values - backwards inter-procedural tracing through parameters, dataclass fields, dict keys, tuple positions and returns to parser sources",
-              "Rules B1-B8 over 49 construction sites and every call that passes a node position (B5 same-node line/column, B6 no parent line for a part, B7 record line of class-level findings); sinks whose sources cannot be followed are counted as undecided (frozen maximum), never as violations." + _COMMON, "DESIGN.md 4 C12"),
+              "Rules B1-B9 (B9: the quoted TypeScript function name is read from the direct parent) over 49 construction sites and every call that passes a node position (B5 same-node line/column, B6 no parent line for a part, B7 record line of class-level findings); sinks whose sources cannot be followed are counted as undecided (frozen maximum), never as violations." + _COMMON, "DESIGN.md 4 C12"),
     "C13": _p("static analysis: line-model def-use rule (splitlines vs parser newline model)",
-              "Narrow claim: only the line-model and lookup-arithmetic clauses (L1-L7; L6 = no tree-sitter byte offset applied to a str, L7 = sibling walks / last-child picks allow for comment nodes) of the edit-invariance property are decided; all relations between two runs over program pairs are out of reach of a static argument." + _COMMON, "DESIGN.md 4 C13"),
+              "Narrow claim: only the line-model and lookup-arithmetic clauses (L1-L8; L8 = the DRY import-skip state is threaded unchanged through blank/comment lines; L6 = no tree-sitter byte offset applied to a str, L7 = sibling walks / last-child picks allow for comment nodes) of the edit-invariance property are decided; all relations between two runs over program pairs are out of reach of a static argument." + _COMMON, "DESIGN.md 4 C13"),
     "C14": _p("static analysis: must-pass-through (gate dominance) on lint_file paths, who-may-call on the rule-execution chain, table agreement, walk-shape rule",
               "Rules W1-W6 over lint_file's CFG paths, the rule-execution call chain, the exclusion tables and the os.walk loop." + _COMMON, "DESIGN.md 4 C14"),
     "C15": _p("static analysis: constant propagation of emitted rule ids x command filter predicates (table evaluation), export/constructibility rules, language-guard dominance, section-key disjointness",
               "Rules U1-U8 over 20 commands x 37 emitted ids, 20 rule classes, the language detector and the shared parse helpers." + _COMMON, "DESIGN.md 4 C15"),
     "C16": _p("static analysis: operator table at the SRP threshold site, branch symmetry of from_dict, sibling record tables, public-method feature matrix",
-              "Rules T1-T4, T6-T11 over the evaluator, the config class, three analyzers and three method predicates." + _COMMON, "DESIGN.md 4 C16"),
+              "Rules T1-T4, T6-T12 (T12: one keyword predicate in the three analyzers) over the evaluator, the config class, three analyzers and three method predicates." + _COMMON, "DESIGN.md 4 C16"),
     "C17": _p("static analysis: registry exhaustiveness (classifier strings = builder table = config-key table = config fields), sibling predicate agreement, grammar vocabulary",
-              "Rules R1-R8 over the three Rust linters and every Rust node-kind literal." + _COMMON, "DESIGN.md 4 C17"),
+              "Rules R1-R9 (R8 also: every sibling comment kind stepped over inside the attribute scan; R9: recursive containment searches test their own node) over the three Rust linters and every Rust node-kind literal." + _COMMON, "DESIGN.md 4 C17"),
     "C18": _p("static analysis: must-precede/short-circuit on CFG paths, control dependence of the global checks, consumed-vs-validated table agreement, exception-path analysis, prefix-boundary and path-relativisation rules",
               "Rules V1-V8 over the rule checker, matcher, validator and path resolver." + _COMMON, "DESIGN.md 4 C18"),
     "C19": _p("static analysis: doc<->code table agreement (rule ids, supported languages), grammar vocabulary of the TypeScript analyzers",
-              "Narrow claim: rules Y1-Y4 decide necessary conditions for a documented example to be reportable at all; whether an example is detected where embedded is behaviour over programs and not decided." + _COMMON, "DESIGN.md 4 C19"),
+              "Narrow claim: rules Y1-Y5 (Y5: a parent_map climb behind a documented exemption tests every ancestor) decide necessary conditions for a documented example to be reportable at all; whether an example is detected where embedded is behaviour over programs and not decided." + _COMMON, "DESIGN.md 4 C19"),
     "C20": _p("static analysis: table agreement (template sections, placeholders, presets, choices), key-normalisation rule, validate-before-write dominance on CFG paths",
               "Rules G1-G9 over the merge helpers (sections, key spellings, insert position, line break), the load/store path and parser agreement, the template, the preset table, the validators and the three writing commands." + _COMMON, "DESIGN.md 4 C20"),
 }
